@@ -5,7 +5,7 @@ CONSTANTS N = 2
           Buffered = TRUE
           RestartsOnLateRequest = FALSE
           Replenish = FALSE
-          Grants = {1, 2, 99}
+          Grants = {0, 1, 2, 99}
           Big = 99
           MaxCalls = 3
           MaxSteps = 2
